@@ -158,7 +158,7 @@ func (c *Case) DiskDir() string {
 		c.diskDir = d
 		c.diskRoot = d
 		if c.Idx%3 == 1 {
-			hostile := filepath.Join(d, "d [a-c]*?{1,2}%d é")
+			hostile := filepath.Join(d, hostileDirName(c.Idx))
 			if os.Mkdir(hostile, 0755) == nil {
 				c.diskDir = hostile
 			}
@@ -217,6 +217,20 @@ func scratchBase() string {
 	return os.TempDir()
 }
 
+// hostileDirName: names with pattern / shell / printf characters, and names that start like the library's own
+// sub-directories (a database, table or log may live in a directory called anything)
+func hostileDirName(idx int) string {
+	switch (idx / 3) % 4 {
+	case 1:
+		return "sstable_data [x]"
+	case 2:
+		return "sstable_compaction_cache"
+	case 3:
+		return "wal"
+	}
+	return "d [a-c]*?{1,2}%d é"
+}
+
 // RunCase executes one case with panic capture and returns its result.
 func RunCase(p *Prop, seed int64, tier string, idx int) *CaseResult {
 	res := &CaseResult{T: "res", Idx: idx}
@@ -229,7 +243,7 @@ func RunCase(p *Prop, seed int64, tier string, idx int) *CaseResult {
 	if idx%3 == 1 {
 		// every third case works below a directory whose name means something to pattern matchers, shells and printf:
 		// nothing in the library may depend on how its directories are called
-		hostile := filepath.Join(dir, "d [a-c]*?{1,2}%d é")
+		hostile := filepath.Join(dir, hostileDirName(idx))
 		if os.Mkdir(hostile, 0755) == nil {
 			caseDir = hostile
 		}
